@@ -964,6 +964,8 @@ def exec_gen(sc, variant, res, check=True, retain=True):
     interfere = sc["interfere"][variant]
     consume_n = sc["consume_n"][variant]
 
+    seam = c18_segment._Seam(res)  # counts every draw; a run-away loop in the code under test ends the run
+
     def note(obj, where):
         if not retain:
             return
@@ -986,8 +988,12 @@ def exec_gen(sc, variant, res, check=True, retain=True):
         if sc["det_seed"] is None:
             return  # with Python's random in use, touching it would legitimately change the run
         if interfere == "consume":
-            for _ in range(consume_n):
-                pyrandom.random()
+            seam.paused = True
+            try:
+                for _ in range(consume_n):
+                    pyrandom.random()
+            finally:
+                seam.paused = False
             res.hit("interfere:consume")
         elif interfere == "reseed":
             pyrandom.seed(Hi("reseed", variant, state["n_cb"]))
@@ -1079,7 +1085,6 @@ def exec_gen(sc, variant, res, check=True, retain=True):
         return sc["clue_penalty"] * (Hi(solver_cfg.get("subseed", 0), pdigest(problem), "pen") % 3)
 
     saved = (srandom._use_deterministic_prng, dr._rng, pyrandom.getstate())
-    seam = c18_segment._Seam(res)  # counts every draw; a run-away loop in the code under test ends the run
     try:
         seam.install()
         pyrandom.seed(sc["py_seed"] if variant == 0 else sc["py_seed2"])
@@ -1244,6 +1249,10 @@ def _run_gen(sc, res, variants=None):
     res.log("B", b.seq, b.result, b.gen_calls)
     for k, m in b.violations[:3]:
         res.violate(k, m + " [execution B]")
+    if "DrawBudgetExceeded" in (a.exception or "") or "DrawBudgetExceeded" in (b.exception or ""):
+        res.inconclusive = True
+        res.hit("inconclusive:draw_budget")
+        return
     if a.seq != b.seq:
         i = next((i for i, (x, y) in enumerate(zip(a.seq, b.seq)) if x != y), min(len(a.seq), len(b.seq)))
         pa = a.calls[i]["problem"] if i < len(a.calls) else None
